@@ -824,7 +824,27 @@ func ruleC01UserMethods(p *Prog, a *Anchors, r *Report) {
 const stackBudgetLevels = 409000
 
 func ruleC01Budget(p *Prog, a *Anchors, r *Report) {
-	r.Begin("R-C01-BUDGET", "the nesting one execution can put on the stack (compile-time bounds, added where counted separately) times the nested executions of a rendering (execution-time bounds, added up) stays within the stack: N·E ≤ 4.09·10⁵ counted levels", 1)
+	r.Begin("R-C01-BUDGET", "the nesting one execution can put on the stack (compile-time bounds, added where counted separately) times the nested executions of a rendering (execution-time bounds, added up) stays within the stack of the platform: N·E ≤ 4.09·10⁵ counted levels on 64-bit, 1.9·10⁵ on 32-bit platforms (the tree is loaded a second time with GOARCH=386)", 1)
+	c01BudgetOn(p, a, r, "nesting × recursion")
+	if p.Pkg != nil && p.Pkg.TypesSizes != nil && p.Pkg.TypesSizes.Sizeof(types.Typ[types.Uintptr]) == 8 {
+		// the same tree as a 32-bit build sees it (constants may depend on the word size, files on build constraints)
+		o := p.Opts
+		o.Env = append(append([]string{}, o.Env...), "GOARCH=386")
+		p32, err := Load(o)
+		if err != nil {
+			r.Assume("nesting × recursion:32-bit", "-", "the tree does not load for GOARCH=386 (%v): nothing is claimed for 32-bit platforms", err)
+			return
+		}
+		a32 := ResolveAnchors(p32)
+		if a32 == nil || a32.ExecCtx == nil {
+			r.Assume("nesting × recursion:32-bit", "-", "the anchors do not resolve on the GOARCH=386 tree: nothing is claimed for 32-bit platforms")
+			return
+		}
+		c01BudgetOn(p32, a32, r, "nesting × recursion:32-bit")
+	}
+}
+
+func c01BudgetOn(p *Prog, a *Anchors, r *Report, key string) {
 	creach := a.CompileReach()
 	type group struct {
 		fields []string
@@ -940,13 +960,13 @@ func ruleC01Budget(p *Prog, a *Anchors, r *Report) {
 	desc := "N = " + strings.Join(nParts, " + ") + "; E = " + strings.Join(eParts, " + ")
 	switch {
 	case nLevels == 0:
-		r.Bad("nesting × recursion", "-", "no constant bound on the nesting of a source was found (a parser/template counter compared with a constant, refusing with an error): one activation of a macro can put arbitrarily many frames on the stack")
+		r.Bad(key, "-", "no constant bound on the nesting of a source was found (a parser/template counter compared with a constant, refusing with an error): one activation of a macro can put arbitrarily many frames on the stack")
 	case eLevels == 0:
-		r.Unk("nesting × recursion", "-", "no execution-time recursion bound was found")
+		r.Unk(key, "-", "no execution-time recursion bound was found")
 	case nLevels*eLevels > budget:
-		r.Bad("nesting × recursion", "-", "%s: %d·%d = %d counted levels can be on the stack at once, more than the %d that fit Go's stack on this platform (%s) — a macro whose body nests its recursive call deeply exhausts the stack before a depth error is reached, which ends the process", desc, nLevels, eLevels, nLevels*eLevels, budget, budgetWhy)
+		r.Bad(key, "-", "%s: %d·%d = %d counted levels can be on the stack at once, more than the %d that fit Go's stack on this platform (%s) — a macro whose body nests its recursive call deeply exhausts the stack before a depth error is reached, which ends the process", desc, nLevels, eLevels, nLevels*eLevels, budget, budgetWhy)
 	default:
-		r.OK("nesting × recursion", "-", "%s: %d·%d = %d ≤ %d counted levels (%s)", desc, nLevels, eLevels, nLevels*eLevels, budget, budgetWhy)
+		r.OK(key, "-", "%s: %d·%d = %d ≤ %d counted levels (%s)", desc, nLevels, eLevels, nLevels*eLevels, budget, budgetWhy)
 	}
 }
 
